@@ -750,7 +750,10 @@ def table_cases(rng):
                             # the opposite at root: the package level must win
                             root["all"] = (not allv) if allv is not None else None
                             root["inc"] = lit("bar") if iv is not None else None
-                        ifs = {"bar": {"mark": None, "entries": [None, "_e1", None], "forms": ["null", "file", "null"]}} if listed else {}
+                        # bar: matched by no include/exclude value; FooBar: matched by include ^Foo AND by exclude Bar$ -
+                        # a listed interface is generated whatever the regexes say
+                        ifs = {"bar": {"mark": None, "entries": [None, "_e1", None], "forms": ["null", "file", "null"]},
+                               "FooBar": None} if listed else {}
                         cfg = {"root": root, "tags": [], "pkgs": {path_of("p0"): {"null": False, "cfg": c, "ifaces": ifs}},
                                "order": [path_of("p0")], "shape": "table"}
                         out.append({"nodes": [node], "config": cfg,
@@ -866,21 +869,25 @@ def oracle_expected(case):
             effective[p] = explicit[max(adopters, key=len)]        # nearest = longest path
             listed[p] = {}
     want, reasons = [], []
+    # an expression that does not compile, at top level or on a package, is rejected when the configuration is
+    # initialised (C09: "an invalid regular expression ... non-zero exit"): nothing is generated
+    for where, c in [("the top-level config", cfg["root"])] + [(p, v["cfg"]) for p, v in cfg["pkgs"].items()]:
+        for key in ("inc", "exc"):
+            if c[key] is not None and c[key]["t"] == "bad":
+                reasons.append("invalid %s regex in %s" % (key, where))
+    if reasons:
+        return [], reasons
     for p, c in effective.items():
         if p not in nodes:
             continue
         ifs = set(iface_names(nodes[p], tags))
         for n in listed[p]:
             if n not in ifs: reasons.append("listed %s.%s is not an interface of the package" % (p, n))
-        for key in ("inc", "exc"):
-            if c[key]["t"] == "bad": reasons.append("invalid %s regex in %s" % (key, p))
         for n in sorted(ifs):
             if c["all"] is True: sel = True
             elif n in listed[p]: sel = True
             elif c["inc"]["t"] == "ok" and re.search(pat_go(c["inc"]["p"]), n):
                 sel = c["exc"]["t"] != "ok" or not re.search(pat_go(c["exc"]["p"]), n)
-                if c["exc"]["t"] == "bad": sel = None
-            elif c["inc"]["t"] == "bad": sel = None
             else: sel = False
             if not sel:
                 continue
@@ -906,6 +913,8 @@ def oracle(case, ex, obs):
     if ex == "panic":
         return ["panic: mockery crashed"]
     if ex == "ok":
+        if any(r.startswith("invalid") for r in reasons):
+            return ["exit: zero exit although %s" % reasons[0]]
         if obs != want:
             miss = [x for x in want if want.count(x) > obs.count(x)]
             extra = [x for x in obs if obs.count(x) > want.count(x)]
